@@ -126,6 +126,24 @@ def module_int_constant(tree: ast.Module, name: str):
     return top[0].value.value
 
 
+def _module_import_plain(tree, name):
+    """`import <name>` once at module level and the name bound nowhere else in the module"""
+    n_imp = sum(1 for n in tree.body if isinstance(n, ast.Import) for a in n.names if a.name == name and a.asname is None)
+    others = 0
+    for n in ast.walk(tree):
+        if isinstance(n, ast.Name) and n.id == name and isinstance(n.ctx, (ast.Store, ast.Del)):
+            others += 1
+        elif isinstance(n, (ast.FunctionDef, ast.ClassDef)) and n.name == name:
+            others += 1
+        elif isinstance(n, ast.arg) and n.arg == name:
+            others += 1
+        elif isinstance(n, ast.ImportFrom):
+            others += sum(1 for a in n.names if (a.asname or a.name) == name)
+        elif isinstance(n, ast.Import):
+            others += sum(1 for a in n.names if a.asname == name or (a.name == name and n not in tree.body))
+    return n_imp == 1 and others == 0
+
+
 def module_import_ok(tree: ast.Module, mod: str, name: str):
     """`from <mod> import <name>` at top level and `name` bound nowhere else in the module"""
     found = False
@@ -356,7 +374,11 @@ class MethodTr:
             b = Binds(self)
             l, r = self.expr(node.left), self.expr(node.right)
             lt, rt = b.use(l), b.use(r)
-            if l.typ not in (INT, VAL, OPTINT) or r.typ not in (INT, VAL, OPTINT) or INT not in (l.typ, r.typ):
+            # two dynamic values: only `-` (no built-in non-number supports it: `TypeError` exactly when `asInt?` fails;
+            # `+` / `*` mean concatenation / repetition on lists and stay refused)
+            both_dyn = l.typ == VAL and r.typ == VAL and isinstance(node.op, ast.Sub)
+            if l.typ not in (INT, VAL, OPTINT) or r.typ not in (INT, VAL, OPTINT) or \
+                    (INT not in (l.typ, r.typ) and not both_dyn):
                 raise Unsupported(node, 'arithmetic on %s and %s' % (l.typ, r.typ))
             li = self.as_int(b, lt, l.typ, node)
             ri = self.as_int(b, rt, r.typ, node)
@@ -551,6 +573,10 @@ class MethodTr:
         for i, (p, t) in enumerate(params):
             if i < len(args):
                 a = self.expr(args[i])
+                if a.typ == OPTINT and t == INT:
+                    # the callee is specified for ints only: `None` as this argument is NOT MODELLED (`Other`), never guessed
+                    out.append(b.use(E('(optIntArg? %s)' % b.use(a), INT, False)))
+                    continue
                 out.append(self.store_as(b.use(a), a.typ, t, node))
             elif p in info['defaults']:
                 d = info['defaults'][p]
@@ -615,6 +641,13 @@ class MethodTr:
             if m is None:
                 raise Unsupported(node, 'self.%s is not a translated method (translated before its caller)' % f.attr)
             return self.call_pure(m, node.args, node, node.keywords)
+        if ast.unparse(f) == 'operator.index' and len(node.args) == 1 and not node.keywords \
+                and _module_import_plain(self.tree, 'operator'):
+            # `operator.index(x)` of a statically-Int `x` is `x` (rule K1's companion)
+            a = self.expr(node.args[0])
+            if a.typ != INT:
+                raise Unsupported(node, 'operator.index of a %s' % a.typ)
+            return a
         raise Unsupported(node, 'call %s' % ast.unparse(f))
 
     # ---- statements
@@ -687,6 +720,8 @@ class MethodTr:
         if isinstance(st, ast.Assign):
             if len(st.targets) != 1:
                 raise Unsupported(st, 'chained assignment')
+            if self._message_only(st):
+                return None
             return self.assign(st.targets[0], st.value, st)
         if isinstance(st, ast.Delete):
             if len(st.targets) != 1:
@@ -732,6 +767,9 @@ class MethodTr:
         if isinstance(it, ast.Call) and isinstance(it.func, ast.Name) and it.func.id == 'enumerate' \
                 and len(it.args) == 1 and not it.keywords:
             enum, it = True, it.args[0]
+        if not enum and _self_attr(it, self.self_name) and self.state.get(it.attr) == LVAL \
+                and it.attr not in self.rebound:
+            return self.for_cells(st, it.attr)
         if not (isinstance(it, ast.Name) and it.id == self.self_name):
             raise Unsupported(st, 'for over %s (only `self` / `enumerate(self)`)' % ast.unparse(st.iter))
         src = self._iter_of_self()
@@ -764,6 +802,31 @@ class MethodTr:
             self.rules.append('L1:lazy-iteration-over-self')
         return '(forLazy (fun s => %s) %s %s\n%s lfuel 0 0)' % (self.sget(attr), keep, bind, self.block(st.body))
 
+    def for_cells(self, st: ast.For, attr):
+        """rule L2: `for a, b in self.<A>:` (`<A>` a declared list attribute no method rebinds; a tuple of names as
+        the target): CPython's list iterator over the live list (`forLazy`, every element kept); each element goes to a
+        hidden local and the targets are bound by the ordinary unpacking statement `a, b = <element>` (a cell of the
+        store: `Heap.unpack?`, so an element that is not a 2-slot list raises what Python raises)"""
+        tg = st.target
+        if not (isinstance(tg, ast.Tuple) and len(tg.elts) >= 2 and all(isinstance(x, ast.Name) for x in tg.elts)):
+            raise Unsupported(st, 'for over self.%s: the target must be a tuple of names' % attr)
+        names = {x.id for x in tg.elts}
+        for n in ast.walk(ast.Module(st.body, [])):
+            if isinstance(n, ast.Name) and n.id in names and isinstance(n.ctx, (ast.Store, ast.Del)):
+                raise Unsupported(n, 'assignment to a loop variable')
+        self.n_cell_loops = getattr(self, 'n_cell_loops', 0) + 1
+        hidden = '%%for_element_%d' % self.n_cell_loops     # not a Python identifier: cannot clash
+        fx, tx = self.bind_local(hidden, VAL, st)
+        unpack = ast.copy_location(ast.Assign([ast.Tuple([ast.Name(x.id, ast.Store()) for x in tg.elts], ast.Store())],
+                                              ast.copy_location(ast.Name(hidden, ast.Load()), st)), st)
+        ast.fix_missing_locations(unpack)
+        self.uses_fuel = True
+        if 'L2:iteration-over-cells' not in self.rules:
+            self.rules.append('L2:iteration-over-cells')
+        body = self.block([unpack] + list(st.body))
+        return '(forLazy (fun s => %s) (fun _ => true) (fun _ x s => { s with %s := x })\n%s lfuel 0 0)' % (
+            self.sget(attr), fx, body)
+
     def exc_class(self, st: ast.Raise) -> str:
         if st.cause is not None or st.exc is None:
             raise Unsupported(st, 'raise from / bare raise')
@@ -778,12 +841,38 @@ class MethodTr:
             raise Unsupported(st, 'exception class outside %s' % (EXC_NAMES,))
         return exc.id
 
+    def _message_only(self, st: ast.Assign) -> bool:
+        """rule M1: `x = self.__class__.__name__` (cannot raise, no effect) where `x` is bound nowhere else in the
+        function and read only inside the arguments of `raise X(...)` is no statement: exception messages are not
+        modelled"""
+        tgt = st.targets[0]
+        if not (isinstance(tgt, ast.Name) and isinstance(st.value, ast.Attribute)
+                and ast.unparse(st.value) == '%s.__class__.__name__' % self.self_name):
+            return False
+        name = tgt.id
+        if name == self.self_name or name in self.vars or name in self.aliases \
+                or name in [a.arg for a in self.fdef.args.args]:
+            return False
+        in_raise = set()
+        for n in ast.walk(self.fdef):
+            if isinstance(n, ast.Raise) and isinstance(n.exc, ast.Call):
+                for a in n.exc.args:
+                    in_raise.update(id(m) for m in ast.walk(a))
+        for n in ast.walk(self.fdef):
+            if isinstance(n, ast.Name) and n.id == name and n is not tgt:
+                if not isinstance(n.ctx, ast.Load) or id(n) not in in_raise:
+                    return False
+        self.msg_names = getattr(self, 'msg_names', set()) | {name}
+        if 'M1:message-only-local' not in self.rules:
+            self.rules.append('M1:message-only-local')
+        return True
+
     def _harmless(self, a):
         """an argument of an exception constructor: evaluating it cannot raise (constants, variables, f-strings /
         `%r` formats of those, the class name)"""
         if isinstance(a, ast.Constant):
             return
-        if isinstance(a, ast.Name) and (a.id in self.vars or a.id in self.aliases):
+        if isinstance(a, ast.Name) and (a.id in self.vars or a.id in self.aliases or a.id in getattr(self, 'msg_names', ())):
             return
         if isinstance(a, ast.JoinedStr):
             for v in a.values:
@@ -796,7 +885,32 @@ class MethodTr:
             return
         raise Unsupported(a, 'exception argument %s' % ast.unparse(a))
 
+    def _int_kind_dispatch(self, st: ast.Try):
+        """rule K1 (kind dispatch decided by the declared parameter type): `try: a, b, c = x.start, x.stop, x.step` /
+        `except AttributeError: H` / `else: E` with `x` a variable of static type Int IS `H`: an int has none of the
+        attributes `start` / `stop` / `step`, the first attribute read raises `AttributeError` before anything is bound,
+        `E` does not run.  The slice kind of the argument is outside the tie (the spec declares the parameter `Int`)."""
+        if st.finalbody or len(st.handlers) != 1 or len(st.body) != 1 or not isinstance(st.body[0], ast.Assign):
+            return None
+        h = st.handlers[0]
+        if h.name is not None or not isinstance(h.type, ast.Name) or h.type.id != 'AttributeError':
+            return None
+        v = st.body[0].value
+        reads = v.elts if isinstance(v, ast.Tuple) else [v]
+        if not reads:
+            return None
+        for r in reads:
+            if not (isinstance(r, ast.Attribute) and isinstance(r.value, ast.Name) and r.attr in ('start', 'stop', 'step')
+                    and r.value.id in self.vars and self.vars[r.value.id][1] == INT):
+                return None
+        if 'K1:int-kind-dispatch' not in self.rules:
+            self.rules.append('K1:int-kind-dispatch')
+        return self.block(h.body)
+
     def try_stmt(self, st: ast.Try):
+        k1 = self._int_kind_dispatch(st)
+        if k1 is not None:
+            return k1
         if st.finalbody or st.orelse or len(st.handlers) != 1:
             raise Unsupported(st, 'try with finally / else / several handlers')
         h = st.handlers[0]
@@ -1493,6 +1607,13 @@ REJECTS = [
     ('alias bound twice', 'dints = self.dead_indices\n        dints = self.dead_indices\n        dints.append(start)', {}),
     ('list display as an argument', 'self.dead_indices.append([start, start])', {}),
     ('nested display', 'x = [[start], start]', {}),
+    ('sum of two dynamic values (list concatenation)', 'a = self.dead_indices[0]\n        b = self.dead_indices[1]\n        x = a + b', {}),
+    ('for over a list attribute with a single name as the target', 'for d in self.dead_indices:\n            start = start + 1', {}),
+    ('for over a list attribute that another method rebinds', 'for a, b in self.scratch:\n            start = start + 1', {'scratch': 'List Val'}),
+    ('assignment to a variable of a cell loop', 'for a, b in self.dead_indices:\n            a = start', {}),
+    ('kind dispatch on a variable that is not statically an int', 'try:\n            a = stop.start\n        except AttributeError:\n            a = 1', {}),
+    ('kind dispatch on an attribute that ints have', 'try:\n            a = start.real\n        except AttributeError:\n            a = 1', {}),
+    ('operator.index of a value that is not statically an int', 'a = operator.index(stop)', {}),
     ('two dynamic values ordered', 'a = self.dead_indices[0]\n        b = self.dead_indices[1]\n        if a < b:\n            return', {}),
     ('equality of a dynamic value and an int', 'a = self.dead_indices[0]\n        if a == start:\n            return', {}),
     ('true division outside the declared comparison', 'x = start / _COMPACTION_FACTOR', {}),
